@@ -11,8 +11,15 @@ Theorem C18_chunking_is_irrelevant : forall (st : Type) h_init h_update h_final 
 Proof. exact chunking_invariant. Qed.
 Print Assumptions C18_chunking_is_irrelevant.
 
-Theorem C18_read_fault_is_an_error : forall (st : Type) h_init h_update h_final (A : Type) (decode : str -> res A) sc,
-  In Fail sc -> from_sealed_reader st h_init h_update h_final A decode sc = Err 1.
+Theorem C18_data_with_eof_is_irrelevant : forall (st : Type) h_init h_update h_final sha256,
+  (forall chunks, h_final (fold_left h_update chunks h_init) = sha256 (concat chunks)) ->
+  forall (A : Type) (decode : str -> res A) chunks c,
+  from_sealed_reader st h_init h_update h_final A decode (map Data chunks ++ [DataEof c]) = from_sealed sha256 A decode (concat chunks ++ c).
+Proof. exact chunking_invariant_data_with_eof. Qed.
+Print Assumptions C18_data_with_eof_is_irrelevant.
+
+Theorem C18_read_fault_is_an_error : forall (st : Type) h_init h_update h_final (A : Type) (decode : str -> res A) pre post,
+  from_sealed_reader st h_init h_update h_final A decode (map Data pre ++ Fail :: post) = Err 1.
 Proof. exact read_fault_surfaces. Qed.
 Print Assumptions C18_read_fault_is_an_error.
 
